@@ -227,7 +227,13 @@ def read_num_token(i, s):
     if '.' not in raw_value:
         value = int(raw_value)
     else:
-        value = float(raw_value)
+        # Convert the whole spelling, exponent included, in one correctly
+        # rounded step; scaling a float by a power of ten afterwards loses
+        # accuracy and overflows for literals that are in range.
+        value = float(m.group(0))
+        if value in (float("inf"), float("-inf")):
+            raise BadNumberError(i)
+        return Token(Tokens.NUM, m.start(), m.end(), value=value)
     if m.group(4):
         exponent = int(m.group(4)[1:])
         try:
